@@ -69,10 +69,10 @@ func ruleBucketKey(c *Ctx) {
 			c.check(okb, fnName(f), det, c.P.ipos(in), why, why)
 		})
 	}
-	c.minInstances("per-bucket map accesses", n, 90)
+	c.minInstances("per-bucket map accesses", n, 60)
 	// two-bucket methods: each looked-up set is indexed only with the key parameter of the same position
 	k := 0
-	for _, m := range exportedMethods(c, "Tx") {
+	for _, m := range c.P.Methods(c.P.Named("", "Tx")) {
 		var strParams []int
 		for i, p := range m.Params {
 			// a bucket parameter is a string parameter directly followed by its []byte key parameter
@@ -179,7 +179,7 @@ func ruleBucketKey(c *Ctx) {
 			}
 		}
 	}
-	c.minInstances("positional key uses in two-bucket methods", k, 8)
+	c.minInstances("positional key uses in two-bucket methods", k, 6)
 }
 
 // ruleComposite: composite byte keys built from two variable-length inputs must be injective.
